@@ -99,8 +99,10 @@ class C03(Property):
   def gen_workload(self, W, index):
     roots = []
     for _ in range(W.weighted("nroots", [(3, 1), (2, 2)])):
-      kind = W.weighted("rkind", [(5, "finite"), (2, "chain"), (2, "periodic"),
-                                  (1, "endless")])
+      kind = W.weighted("rkind", [(10, "finite"), (4, "chain"),
+                                  (4, "periodic"), (2, "endless"),
+                                  (2, "repeat_n"), (1, "lit_repeat_n"),
+                                  (1, "list"), (1, "range"), (1, "gen")])
       if kind == "finite":
         roots.append({"kind": kind, "len": W.choose("len", 13)})
       elif kind == "chain":
@@ -108,6 +110,8 @@ class C03(Property):
                                              W.choose("len", 6)]})
       elif kind == "periodic":
         roots.append({"kind": kind, "n": W.span("per", 1, 4)})
+      elif kind in ("repeat_n", "lit_repeat_n", "list", "range", "gen"):
+        roots.append({"kind": kind, "len": W.choose("len", 8)})
       else:
         roots.append({"kind": kind})
     ops = []
@@ -183,6 +187,9 @@ class C03(Property):
                                   ["hub_use", 0], ["peek", "zero", 0]]},
       {"roots": [fin(2)], "ops": [["append_scalars", 2], ["take", "beyond",
                                                           3]]},
+      {"roots": [{"kind": "repeat_n", "len": 5}],
+       "ops": [["copy"], ["take", "within", 1], ["peek", "within", 2],
+               ["take", "inf", 0]]},
       {"roots": [fin(1)], "ops": [["append_scalars", 1], ["copy"],
                                   ["take", "within", 3], ["take", "within",
                                                           2]]},
@@ -270,6 +277,20 @@ class _Ctx(object):
         a, b = self.new_source(r["lens"][0]), self.new_source(r["lens"][1])
         self.add("stream", Stream(a, b), HandleModel(AppendSeq(
           FnSeq(a.value_fn, a.length), FnSeq(b.value_fn, b.length))))
+      elif r["kind"] in ("repeat_n", "lit_repeat_n"):
+        import itertools
+        if r["kind"] == "repeat_n":
+          real = Stream(itertools.repeat(77, r["len"]))
+        else:
+          from audiolazy import lazy_itertools
+          real = lazy_itertools.repeat(77, r["len"])
+        self.add("stream", real, HandleModel(ListSeq([77] * r["len"])))
+      elif r["kind"] in ("list", "range", "gen"):
+        vals = list(range(40, 40 + r["len"]))
+        real = Stream(vals if r["kind"] == "list" else
+                      range(40, 40 + r["len"]) if r["kind"] == "range" else
+                      (v for v in vals))
+        self.add("stream", real, HandleModel(ListSeq(vals)))
       else:
         vals = [900 + i for i in range(r["n"])]
         real = Stream(*vals)
